@@ -194,6 +194,11 @@ def check_printers(ctx):
 
 
 def check_from_operands(ctx):
+    """C17.O — every from_operands is executed abstractly (nqsa/circuit.py; nothing of the repository runs) on a list of
+    distinguishable operand objects, once with raw ints at the Immediate positions (what the text parser leaves there) and
+    once with Immediate objects: the instruction it constructs must hold, in the field printed at position i, exactly the
+    object passed at position i (an int wrapped as Immediate(<that int>)).  How the method is written does not matter."""
+    from .. import circuit as C
     repo, ev = ctx.repo, ctx.ev
     seen = {}
     for c in I.all_registered(repo):
@@ -208,107 +213,70 @@ def check_from_operands(ctx):
         ctx.fn(q + ".from_operands")
         ops = I.operands_attrs(repo, c) or []
         anns = {n: ann for n, ann, k in I.operand_fields(repo, c)}
-        pname = A.param_names(fn)[1]
-        # position of each local: from `a, b = operands` or `a = operands[i]`
-        pos = {}
-        for n in A.body_nodes(fn):
-            if isinstance(n, ast.Assign) and len(n.targets) == 1:
-                t, v = n.targets[0], n.value
-                if isinstance(t, ast.Tuple) and isinstance(v, ast.Name) and v.id == pname:
-                    for i, e in enumerate(t.elts):
-                        if isinstance(e, ast.Name):
-                            pos.setdefault(e.id, i)
-                elif isinstance(t, ast.Name):
-                    idxs = [ev.try_eval(s.slice, fo.module) for s in ast.walk(v) if isinstance(s, ast.Subscript) and isinstance(s.value, ast.Name) and s.value.id == pname]
-                    idxs = [i for i in idxs if isinstance(i, int)]
-                    if idxs and len(set(idxs)) == 1:
-                        pos.setdefault(t.id, idxs[0])
-        rets = [r for r in A.returns(fn) if isinstance(r.value, ast.Call) and dotted(r.value.func) == "cls"]
-        if len(rets) != 1:
-            ctx.error("C17.O", f"{fo.name}.from_operands: expected one `return cls(...)`")
+        reals = [repo.property_alias(c, a) or a for a in ops]
+        is_imm = ["Immediate" in I.ann_types(anns.get(r)) for r in reals]
+
+        def operands(with_ints):
+            vals = []
+            for i, r in enumerate(reals):
+                t = I.ann_types(anns.get(r))
+                if is_imm[i]:
+                    vals.append(1000003 + 17 * i if with_ints else C.Imm(2000003 + 17 * i))  # large odd values: a mask, a modulus or a sign change shows
+                elif "Register" in t:
+                    vals.append(C.RegSym(f"operand{i}"))
+                else:
+                    k = repo.resolve_class(fo.module, t[0]) if t else None
+                    vals.append(C.Obj(k, {"operand": i}))
+            return vals
+
+        runs = {}
+        for with_ints in (True, False):
+            if with_ints and not any(is_imm):
+                continue
+            vals = operands(with_ints)
+            it = C.Interp(repo, ev, C.Scenario(), None)
+            try:
+                out = it.call_function(fo.module, fn, [vals], {}, self_obj=("class", fo))
+                runs[with_ints] = (vals, out, None)
+            except C.EvalRaise as ex_:
+                runs[with_ints] = (vals, None, str(ex_))
+            except AnalysisError as ex_:
+                ctx.error("C17.O", f"{fo.name}.from_operands cannot be evaluated: {ex_}")
+                runs = None
+                break
+        if runs is None:
             continue
-        kw = A.kwargs_of(rets[0].value)
-        # length assertion
-        asserted = None
-        for n in A.body_nodes(fn):
-            if isinstance(n, ast.Assert) and isinstance(n.test, ast.Compare) and A.norm(n.test.left) == f"len({pname})":
-                asserted = ev.try_eval(n.test.comparators[0], fo.module)
-        if asserted is not None:
-            ctx.check("C17.O", f"{fo.name}:arity", asserted == len(ops), f"{fo.name}.from_operands asserts {asserted} operands, the class declares {len(ops)}", fo.loc(fn), trivial=True)
-        # value preservation: what reaches the constructor is the parsed operand itself, at most wrapped as Immediate(<same value>)
-        multi_defs = A.assigned_names(fn)
 
-        def origin(e, depth=0):
-            """the operand expression `e` denotes unchanged (a local bound to an operand, operands[i]), else None"""
-            if isinstance(e, ast.Name):
-                if e.id in pos:
-                    return e.id
-                # another local: every value it can hold denotes the same operand
-                vals = [v for v in multi_defs.get(e.id, []) if v is not None]
-                if vals and depth < 4:
-                    os_ = {origin(v, depth + 1) for v in vals}
-                    return os_.pop() if len(os_) == 1 else None
-                return None
-            if isinstance(e, ast.Subscript) and isinstance(e.value, ast.Name) and e.value.id == pname:
-                i_ = ev.try_eval(e.slice, fo.module)
-                return f"{pname}[{i_}]" if isinstance(i_, int) else None
-            if isinstance(e, ast.Call) and dotted(e.func).split(".")[-1] == "Immediate":
-                args = list(e.args) + [k.value for k in e.keywords if k.arg == "value"]
-                return origin(args[0], depth + 1) if len(args) == 1 and len(e.keywords) + len(e.args) == 1 else None
-            if isinstance(e, ast.IfExp):
-                a_, b_ = origin(e.body, depth + 1), origin(e.orelse, depth + 1)
-                return a_ if a_ is not None and a_ == b_ else None
-            return None
+        def same(got, passed):
+            if isinstance(passed, int):
+                return isinstance(got, C.Imm) and got.value == passed
+            return got is passed
 
-        rewritten = []
-        for n in A.body_nodes(fn):
-            if isinstance(n, (ast.Assign, ast.AugAssign, ast.AnnAssign)):
-                tgts = n.targets if isinstance(n, ast.Assign) else [n.target]
-                for t in tgts:
-                    for x in ast.walk(t):
-                        if isinstance(x, ast.Name) and x.id in pos:
-                            v_ = n.value
-                            if isinstance(n, ast.AugAssign):
-                                rewritten.append((x.id, src(n)))
-                            elif isinstance(t, ast.Tuple) and isinstance(v_, ast.Name) and v_.id == pname:
-                                pass  # the unpacking itself
-                            elif isinstance(t, ast.Name) and v_ is not None and origin(v_) in (x.id, f"{pname}[{pos[x.id]}]"):
-                                pass  # re-binding to the same operand, possibly wrapped
-                            else:
-                                rewritten.append((x.id, src(n)))
-        ctx.check("C17.O", f"{fo.name}:operands-reach-the-constructor-unchanged", not rewritten,
-                  f"{fo.name}.from_operands rewrites a parsed operand before constructing the instruction ({'; '.join(w for _, w in rewritten)[:200]}): "
+        changed, where = [], {}
+        for with_ints, (vals, out, err) in runs.items():
+            if err is not None or not isinstance(out, C.Obj):
+                continue
+            for i, r in enumerate(reals):
+                got = out.fields.get(r)
+                hit = [j for j, v_ in enumerate(vals) if same(got, v_)]
+                where.setdefault(r, set()).update(hit or [None])
+                if not hit:
+                    changed.append(f"{r} = {got!r} (operands {vals!r})")
+        obj_run = runs.get(False) or runs.get(True)
+        ctx.check("C17.O", f"{fo.name}:operands-reach-the-constructor-unchanged", not changed and obj_run[2] is None,
+                  f"{fo.name}.from_operands does not hand the parsed operands to the constructor as they are ({'; '.join(changed)[:200] or obj_run[2]}): "
                   "the printer and the binary decoder keep the original operands, so the printed text of such an instruction parses back to a different one", fo.loc(fn),
-                  sample={"shape": fo.name, "locals": sorted(pos)})
-        for i, a in enumerate(ops):
-            real = repo.property_alias(c, a) or a
-            v = kw.get(real)
-            if v is not None and origin(v) is None:
-                ctx.check("C17.O", f"{fo.name}.{real}:constructor-argument-is-the-operand", False,
-                          f"{fo.name}.from_operands passes `{src(v)}` for {real}, which is not the parsed operand (or Immediate(<it>))", fo.loc(fn))
-            got = None
-            if isinstance(v, ast.Name):
-                got = pos.get(v.id)
-                if got is None and origin(v) is not None:
-                    o_ = origin(v)
-                    got = pos.get(o_) if o_ in pos else (int(o_[len(pname) + 1:-1]) if o_.startswith(pname + "[") else None)
-            elif v is not None:
-                idxs = [ev.try_eval(s.slice, fo.module) for s in ast.walk(v) if isinstance(s, ast.Subscript) and isinstance(s.value, ast.Name) and s.value.id == pname]
-                got = idxs[0] if idxs else None
-            ctx.check("C17.O", f"{fo.name}.{real}:position", got == i,
-                      f"{fo.name}.from_operands fills {real} from operand position {got}; it is printed (and declared) at position {i}", fo.loc(fn),
-                      sample={"shape": fo.name, "attr": real, "position": i})
-            if "Immediate" in I.ann_types(anns.get(real)):
-                # an int must be accepted and wrapped: some isinstance(x, int) on this local / operands[i]
-                local = v.id if isinstance(v, ast.Name) else None
-                accepts = False
-                for n in A.body_nodes(fn):
-                    if isinstance(n, ast.Call) and dotted(n.func) == "isinstance" and len(n.args) == 2 and A.norm(n.args[1]) == "int":
-                        x = n.args[0]
-                        if (local and isinstance(x, ast.Name) and (x.id == local or (origin(x) is not None and origin(x) == origin(v)))) or (isinstance(x, ast.Subscript) and isinstance(x.value, ast.Name) and x.value.id == pname and ev.try_eval(x.slice, fo.module) == i):
-                            accepts = True
-                ctx.check("C17.O", f"{fo.name}.{real}:accepts-int", accepts,
-                          f"{fo.name}.from_operands does not accept a raw int for the Immediate {real}; the parser leaves literals at Immediate positions as ints", fo.loc(fn), trivial=True)
+                  sample={"shape": fo.name, "operands": reals})
+        for i, r in enumerate(reals):
+            got = sorted(where.get(r, {None}), key=lambda x: -1 if x is None else x)
+            ctx.check("C17.O", f"{fo.name}.{r}:position", got == [i],
+                      f"{fo.name}.from_operands fills {r} from operand position {got}; it is printed (and declared) at position {i}", fo.loc(fn),
+                      sample={"shape": fo.name, "attr": r, "position": i})
+            if is_imm[i]:
+                vals, out, err = runs[True]
+                ctx.check("C17.O", f"{fo.name}.{r}:accepts-int", err is None and isinstance(out, C.Obj) and same(out.fields.get(r), vals[i]),
+                          f"{fo.name}.from_operands does not accept a raw int for the Immediate {r} ({err or 'it is not wrapped as Immediate(<the int>)'}); the parser leaves literals at Immediate positions as ints",
+                          fo.loc(fn), trivial=True)
 
 
 def check_symbols(ctx):
@@ -461,7 +429,7 @@ SEEDS = [
     dict(id="c17-rotation-numerator-reduced", file="netqasm/lang/instr/core.py", expect="C17.O", construct="operands-reach-the-constructor-unchanged",
          old="        return cls(reg=reg, imm0=imm0, imm1=imm1)  # type: ignore",
          new="        if isinstance(imm0, Immediate) and isinstance(imm1, Immediate):\n            imm0 = Immediate(value=imm0.value % 2 ** (imm1.value + 1))\n        return cls(reg=reg, imm0=imm0, imm1=imm1)  # type: ignore"),
-    dict(id="c17-rotation-ctor-arg-masked", file="netqasm/lang/instr/core.py", expect="C17.O", construct="constructor-argument-is-the-operand",
+    dict(id="c17-rotation-ctor-arg-masked", file="netqasm/lang/instr/core.py", expect="C17.O", construct="operands-reach-the-constructor-unchanged",
          old="        return cls(reg=reg, imm0=imm0, imm1=imm1)  # type: ignore", new="        return cls(reg=reg, imm0=imm0, imm1=Immediate(value=imm1.value & 0x7F))  # type: ignore"),
     dict(id="c17-print-swapped", file=B, expect="C17.P", construct="RegEntryInstruction", old='return f"{self.mnemonic} {str(self.reg)} {str(self.entry)}"', new='return f"{self.mnemonic} {str(self.entry)} {str(self.reg)}"'),
     dict(id="c17-print-comma", file=B, expect="C17.P", construct="RegRegInstruction", old='return f"{self.mnemonic} {str(self.reg0)} {str(self.reg1)}"', new='return f"{self.mnemonic} {str(self.reg0)}, {str(self.reg1)}"'),
